@@ -1,4 +1,4 @@
-import Ledger.Driver.Core
+import Ledger.Driver.Query
 
-/-! `ldriver_misc`: correspondence driver for the Misc area (core-only). -/
-def main : IO Unit := Ledger.Driver.runDriver []
+/-! `ldriver_misc`: correspondence driver for the query area (core-only). -/
+def main : IO Unit := Ledger.Driver.runDriver Ledger.Driver.Q.queryHandlers
